@@ -5,7 +5,7 @@ from vf.plan import Plan
 def make(tier):
     P = Plan('C11', level='model_checking', design_ref='DESIGN.md section 5 C11')
     P.meta += ['every operation touches at most 4 ring nodes (itself, its neighbours, the list head), so a universe of 4 elements + 2 heads with ARBITRARY well-formed linkage (all alias patterns, orphan rings, self-linked nodes) covers every configuration an operation can distinguish; induction over the history then gives the membership property for histories of any length']
-    P.not_decided += ['signals with more than three connections, histories of several calls / reconnects (bounded scenarios only); auto_connection_container', 'signal::unregister::base (unregister function run exactly once at connection death): did not close (8 GB / 8 min per concrete scenario)']
+    P.not_decided += ['signals with more than three connections, histories of several calls / reconnects (bounded scenarios only); auto_connection_container', 'signal::unregister::base (unregister function run exactly once at connection death): did not close (two connections: 8 GB / 8 min per concrete scenario; one connection observing its signal from inside the unregister function: > 5 min)']
     u = P.unit('list', 'shim.cpp', harness=['harness.c'], inline=True)
     for h, what in (('h_elem_ctor', 'base(list&): appended at the end of that list; other lists and untouched nodes unchanged; ring invariant'),
                     ('h_elem_dtor', '~base: the element leaves its list, order of the others kept, no live node refers to it'),
@@ -40,6 +40,10 @@ def make(tier):
                '  __CPROVER_assert(c_un == 4 && n1 == 1 && n2 == 1, "the unregister function of every connection runs exactly once");\n'
                '  __CPROVER_assert(((drop & 1) ? p1 < m1 : p1 > m2) && ((drop & 2) ? p2 < m1 : p2 > m2), "it runs when the connection object is destroyed - never during a call of the signal");\n'
                '  { unsigned k = 0; for (unsigned id = 1; id <= 2; ++id) if (!((drop >> (id - 1)) & 1)) { __CPROVER_assert(k < c_cb && l_id[k] == id && l_arg[k] == x, "live callbacks are invoked in order"); ++k; } __CPROVER_assert(c_cb == k, "only live callbacks are invoked"); }\n  VF_PROBE(); }\n')
+    hs += ('void h_sig_unreg1(void){ VF_IN(u32, x); __CPROVER_assume(x < 1000); c_cb = 0; c_un = 0; vf_sig_unreg1(x);\n'
+           '  __CPROVER_assert(c_cb == 1 && l_id[0] == 1 && l_arg[0] == x, "the callback runs for the call made while the connection lives, and not afterwards");\n'
+           '  __CPROVER_assert(c_un == 1, "the unregister function runs exactly once, when the connection object dies");\n'
+           '  __CPROVER_assert(l_un[0] == 1, "inside its unregister function the dying connection is no longer a member of the signal (empty() holds)");\n  VF_PROBE(); }\n')
     P.generated['c11_sig_h.c'] = hs
     SIG = (('sig', 'sig.cpp', (('h_sig_call', 'calling a signal invokes exactly the callbacks whose connection object is still alive, in connection order (all 8 subsets of 3 connections)'),
                                 ('h_sig_moved', 'a moved signal takes its connections along: the new signal invokes the live callbacks, the moved-from signal invokes none'),
@@ -47,7 +51,8 @@ def make(tier):
                                 ('h_sig_empty', 'signal::empty()'))),
            ('sigc', 'sigc.cpp', (('h_sig_combine', 'signal with a combiner: the result folds the results of exactly the live callbacks, in connection order'),)),
            ('sigu', 'sigu.cpp', tuple(('h_sig_unregister_%d' % K, 'unregister::base: the unregister function of a connection runs exactly once, when its connection object dies (dropped subset %d)' % K) for K in range(4))))
-    SIG = SIG[:2]   # unregister::base (sigu.cpp): 4 concrete-subset lemmas each exceeded 8 GB / 8 min without an answer - not registered, listed as not decided
+    # unregister::base (sigu.cpp): neither the two-connection lemmas (8 GB / 8 min each) nor the one-connection scenario h_sig_unreg1 (> 5 min) closed - not registered, listed as not decided
+    SIG = SIG[:2]
     for un, shim, lem in SIG:   # one translation unit per signal type: every further std::function signature enlarges the target sets of all indirect calls
         us = P.unit(un, shim, harness=['c11_sig_h.c'], inline=True, maxb=32)
         for h, what in lem:
